@@ -240,3 +240,49 @@ Proof.
   intros Inv H. assert (Iso : Isolated w []) by (constructor; [exact Inv|intros x Hx; contradiction|intros x Hx; contradiction]).
   apply (iso_inv _ _ (proj1 (live_run_iso _ _ _ _ _ _ Iso H))).
 Qed.
+
+(* ---------- 7. the member getters AFTER the proposed fix (one Copy per element) ---------- *)
+
+Lemma in_filter_some {A B} (f : A -> option B) l x : In x (filter_some (List.map f l)) -> exists a, In a l /\ f a = Some x.
+Proof.
+  induction l as [|a l IH]; simpl; [contradiction|]. destruct (f a) as [b|] eqn:E.
+  - intros [<-|H]; [exists a; auto|]. destruct (IH H) as (a' & Ha & Hf). exists a'. auto.
+  - intros H. destruct (IH H) as (a' & Ha & Hf). exists a'. auto.
+Qed.
+
+Lemma copied_handles_iso {V} (val : heap -> nat -> option V) w K l0 h' l :
+  Isolated w K -> (forall x, In x l0 -> In x (roots (w_st w))) ->
+  length (w_heap w) <= length h' -> (forall x, x < length (w_heap w) -> hget h' x = hget (w_heap w) x) ->
+  Forall2 (fun o o' => val h' o' = val (w_heap w) o /\ forall x, In x (reach h' o') -> length (w_heap w) <= x < length h') l0 l ->
+  Isolated (mkWorld h' (w_st w)) (l ++ K).
+Proof.
+  intros Iso _ L U F. apply fresh_handles_iso; [exact Iso|exact L|exact U|].
+  intros x Hx. apply in_creach in Hx. destruct Hx as (o' & Ho' & Hx).
+  destruct (Forall2_in_r _ _ _ _ F Ho') as (o & _ & _ & Hf). apply (Hf x Hx).
+Qed.
+
+Theorem member_getters_copied_isolated w K :
+  Isolated w K ->
+  (forall u h' l, user_channels_copied_g w u = Ok (h', l) -> Isolated (mkWorld h' (w_st w)) (l ++ K)) /\
+  (forall c h' l, channel_users_copied_g w c = Ok (h', l) -> Isolated (mkWorld h' (w_st w)) (l ++ K)).
+Proof.
+  intros Iso. pose proof (iso_inv _ _ Iso) as Inv. split.
+  - intros u h' l H. unfold user_channels_copied_g in H. bind_inv H hu Hu. bind_inv H names Hn.
+    set (l0 := filter_some (List.map (lookup_channel_h w) names)) in *.
+    assert (R0 : forall x, In x l0 -> In x (roots (w_st w))).
+    { intros x Hx. destruct (in_filter_some _ _ _ Hx) as (a & _ & Ha). unfold lookup_channel_h in Ha. eapply in_roots_chan; eauto. }
+    assert (B : bounded (w_heap w) (creach (w_heap w) l0)).
+    { intros x Hx. apply Inv. rewrite live_objs_creach. apply in_creach in Hx. destruct Hx as (r & Hr & Hx).
+      apply in_creach. exists r. split; [apply R0; exact Hr|exact Hx]. }
+    destruct (copy_all_chans_spec _ _ _ _ B H) as (L & U & F).
+    eapply copied_handles_iso; eauto.
+  - intros c h' l H. unfold channel_users_copied_g in H. bind_inv H hc Hc. bind_inv H names Hn.
+    set (l0 := filter_some (List.map (lookup_user_h w) names)) in *.
+    assert (R0 : forall x, In x l0 -> In x (roots (w_st w))).
+    { intros x Hx. destruct (in_filter_some _ _ _ Hx) as (a & _ & Ha). unfold lookup_user_h in Ha. eapply in_roots_user; eauto. }
+    assert (B : bounded (w_heap w) (creach (w_heap w) l0)).
+    { intros x Hx. apply Inv. rewrite live_objs_creach. apply in_creach in Hx. destruct Hx as (r & Hr & Hx).
+      apply in_creach. exists r. split; [apply R0; exact Hr|exact Hx]. }
+    destruct (copy_all_users_spec _ _ _ _ B H) as (L & U & F).
+    eapply copied_handles_iso; eauto.
+Qed.
